@@ -90,6 +90,20 @@ def build(rng, kind, order):
         prog.append(["input", "vv", tv, rng.choice([3, 7, -4, 50])])
         edges["vv"] = [3, 7, -4, 50, 1]
         val = ["v", "vv"] if tv == t_mem else ["p", ["v", "vv"], t_mem]
+    if kind == "two_inputs" and rng.random() < 0.5:
+        # the latch's inline set / reset expression also occurs earlier in the program (shared by CSE, or inlined
+        # into an entity): the latch must still be driven by it
+        import copy
+        which = rng.choice(["reset", "set", "both"])
+        how = rng.choice(["named", "enable", "named"])
+        for nm, ex in (("reset", reset_e), ("set", set_e)):
+            if which not in (nm, "both"):
+                continue
+            if how == "named":
+                prog.append(["sig", "dup_" + nm, copy.deepcopy(ex)])
+            else:
+                prog.append(["place", "lamp_" + nm, "small-lamp", ["n", 4 if nm == "set" else 8], ["n", 24], None])
+                prog.append(["set", "lamp_" + nm, "enable", copy.deepcopy(ex)])
     prog.append(["mem", "m", t_mem])
     prog.append(["latch", "m", val, set_e, reset_e, order])
     prog.append(["sig", "q0", ["p", ["r", "m"], types.fresh()]])
